@@ -61,6 +61,14 @@ CHECKS.update({
    text="Every subset of production boundaries is used as fence positions, with every prose choice of a menu; the markdown run must equal the run on the concatenated code; an illegal character planted at every token position must be reported at the line:column it has in the markdown file.",
    note="Fences are whole lines of three back-quotes and never fall inside a token (a multi-line << >> literal stays in one block).", ref="6 C19"),
 })
+CHECKS.update({
+ "C09": dict(cat="exploration", tech="exhaustive enumeration of pattern shapes, flag subsets x output forms, hostile spellings, all single-token and single-byte mutants of seeds through the real generator under a watchdog; file-set rule; go build of distinct outputs",
+   text="Every run of the enumerated input/flag space must terminate within the watchdog horizon; every exit-0 run must have written exactly the packages the configuration calls for, non-empty; a deterministic selection of distinct outputs with valid header/actions is compiled by the Go toolchain.",
+   note="Non-termination is only observable as exceeding 600x the normal running time; inputs are the enumerated mutants, not all byte strings; compile step covers a budgeted selection (reported).", ref="6 C09"),
+ "C14": dict(cat="exploration", tech="exhaustive single-edit token mutants, reference renamings and definition duplications of seed grammars; ill-formedness decided by Earley over spec/gocc2.ebnf + symbol-table rules; real generator must exit non-zero",
+   text="The harness knows the token sequence of every mutant it prints, so an independent Earley recogniser over the documented grammar plus three symbol-table rules decide ill-formedness without gocc's front end; every ill-formed mutant must be refused.",
+   note="One-directional (ill-formed => non-zero exit).", ref="6 C14"),
+})
 NOT_YET = {}
 
 def main():
